@@ -175,13 +175,23 @@ def gcirc_check(units, form, p1, p2, same):
 
 
 # ------------------------------------------------------------------------------------------ munu
-def _transform(stripe, route, form, ra, dec):
-    """-> mu, nu, ra_back, dec_back (float64 arrays, degrees)."""
+def _transform(stripe, route, form, ra, dec, direction='icrs->munu'):
+    """direction 'icrs->munu': -> mu, nu, ra_back, dec_back; 'munu->icrs': input is (mu, nu) -> ra, dec, mu_back, nu_back
+    (float64 arrays, degrees)."""
     import astropy.coordinates as ac
     import astropy.units as u
     from pydl.pydlutils.coord import SDSSMuNu, munu_to_radec, radec_to_munu
 
     def one(r, d):
+        if direction == 'munu->icrs':
+            m = SDSSMuNu(mu=r * u.deg, nu=d * u.deg, stripe=stripe)
+            if route == 'graph':
+                b = m.transform_to(ac.ICRS())
+                m2 = b.transform_to(SDSSMuNu(stripe=stripe))
+            else:
+                b = munu_to_radec(m, ac.ICRS())
+                m2 = radec_to_munu(b, SDSSMuNu(stripe=stripe))
+            return b.ra.deg, b.dec.deg, m2.mu.deg, m2.nu.deg
         icrs = ac.ICRS(ra=r * u.deg, dec=d * u.deg)
         if route == 'graph':
             m = icrs.transform_to(SDSSMuNu(stripe=stripe))
@@ -227,28 +237,37 @@ def circle_point(incl_deg, t_deg, node_deg=95.0):
     return np.cos(t)[:, None] * N[None, :] + np.sin(t)[:, None] * M[None, :]
 
 
-def munu_points_check(stripe, route, form, P, pairs, triples):
-    """P: (n,2) RA/Dec; pairs: (m,2) index pairs for the isometry clause; triples: (k,3) for handedness.
-    -> list of (sig, kind, failing indices, msg)."""
+def munu_points_check(stripe, route, form, P, pairs, triples, direction='icrs->munu'):
+    """P: (n,2) RA/Dec (or mu/nu for direction 'munu->icrs'); pairs: (m,2) index pairs for the isometry clause;
+    triples: (k,3) for handedness.  -> list of (sig, kind, failing indices, msg)."""
     out = []
+    first, second = ('radec_to_munu', 'munu_to_radec') if direction == 'icrs->munu' else ('munu_to_radec', 'radec_to_munu')
+    dtag = '' if direction == 'icrs->munu' else ':munu->icrs'
     try:
-        mu, nu, rb, db = _transform(stripe, route, form, P[:, 0], P[:, 1])
+        mu, nu, rb, db = _transform(stripe, route, form, P[:, 0], P[:, 1], direction)
     except Exception as e:  # noqa: BLE001
         return [('munu:exception:%s:%s' % (type(e).__name__, route), 'all', np.array([0]), repr(e))], None
     pole = np.abs(P[:, 1]) > 90.0 - 1.0e-6       # within 3.6 mas of a celestial pole: sin(dec) can round to 1
     spole = np.abs(nu) > 90.0 - 1.0e-6           # same for the poles of the stripe's own system
     nan_f = np.isnan(mu) | np.isnan(nu)
-    if nan_f.any():
+    if nan_f.any() and direction == 'icrs->munu':
         # nu is NaN there; locate the stripe pole independently
         off = np.arcsin(np.clip((vec(P[:, 0], P[:, 1]) * circle_pole(stripe_incl(stripe))[None, :]).sum(axis=1), -1, 1))
         spole = np.abs(np.degrees(off.astype(np.float64))) > 90.0 - 1.0e-6
+    if direction == 'munu->icrs':
+        spole = np.abs(P[:, 1]) > 90.0 - 1.0e-6              # the input latitude is nu here
+        # celestial latitude of the input (mu, nu) from the reference rotation
+        incl = stripe_incl(stripe)
+        v = vec(P[:, 0] - 95.0, P[:, 1])
+        z = v[:, 1] * np.sin(LD(incl) * D2R) + v[:, 2] * np.cos(LD(incl) * D2R)
+        pole = np.abs(np.degrees(np.arcsin(np.clip(z, -1, 1)).astype(np.float64))) > 90.0 - 1.0e-6
     nan_b = (np.isnan(rb) | np.isnan(db)) & ~nan_f
-    for name, m in (('radec_to_munu', nan_f), ('munu_to_radec', nan_b)):
+    for name, m in ((first, nan_f), (second, nan_b)):
         if m.any():
             for tag, mm in ((':|dec|>90-1e-6deg', m & pole), (':|nu|>90-1e-6deg', m & ~pole & spole),
                             ('', m & ~pole & ~spole)):
                 if mm.any():
-                    out.append(('munu:nan:%s%s' % (name, tag), 'point', np.nonzero(mm)[0],
+                    out.append(('munu:nan:%s%s%s' % (name, tag, dtag), 'point', np.nonzero(mm)[0],
                                 'NaN in the result of %s' % name))
     good = ~(nan_f | nan_b)
     vP = vec(P[:, 0], P[:, 1])
@@ -259,7 +278,7 @@ def munu_points_check(stripe, route, form, P, pairs, triples):
     tol = 5 * FLOOR + cond(nu) + cond(db)
     bad = good & (rt > tol)
     if bad.any():
-        out.append(('munu:round-trip', 'point', np.nonzero(bad)[0], 'returns %.3g arcsec away' % (rt[bad].max() / ARCSEC)))
+        out.append(('munu:round-trip' + dtag, 'point', np.nonzero(bad)[0], 'returns %.3g arcsec away' % (rt[bad].max() / ARCSEC)))
     # isometry
     if len(pairs):
         i, j = pairs[:, 0], pairs[:, 1]
@@ -269,7 +288,7 @@ def munu_points_check(stripe, route, form, P, pairs, triples):
         bad = good[i] & good[j] & (np.abs(s1 - s0) > tol)
         if bad.any():
             k = np.nonzero(bad)[0]
-            out.append(('munu:separation-not-preserved', 'pair', k,
+            out.append(('munu:separation-not-preserved' + dtag, 'pair', k,
                         'separation %.12g arcsec becomes %.12g' % (s0[k[0]] / ARCSEC, s1[k[0]] / ARCSEC)))
     # handedness
     if len(triples):
@@ -281,7 +300,7 @@ def munu_points_check(stripe, route, form, P, pairs, triples):
         g = good[triples].all(axis=1) & (np.abs(d0) > 0.05)
         bad = g & (np.sign(d0) != np.sign(d1))
         if bad.any():
-            out.append(('munu:orientation-reversed', 'triple', np.nonzero(bad)[0], 'triple product changes sign'))
+            out.append(('munu:orientation-reversed' + dtag, 'triple', np.nonzero(bad)[0], 'triple product changes sign'))
     return out, (mu, nu, rb, db)
 
 
@@ -536,15 +555,19 @@ def run_munu(acc, task):
         incl = stripe_incl(stripe)
         nt = (incl % 180.0) != 0.0
         P = np.vstack([P0, stripe_pole_points(incl)])
-        for route in ('graph', 'direct'):
-            res, _vals = munu_points_check(stripe, route, 'array', P, pairs, triples)
-            base = np.uint64((stripe * 2 + (route == 'direct')) << 32)
+        for route, direction in (('graph', 'icrs->munu'), ('direct', 'icrs->munu'), ('graph', 'munu->icrs'),
+                                 ('direct', 'munu->icrs')):
+            res, _vals = munu_points_check(stripe, route, 'array', P if direction == 'icrs->munu' else P0, pairs, triples,
+                                           direction)
+            base = np.uint64((stripe * 4 + (route == 'direct') + 2 * (direction != 'icrs->munu')) << 32)
+            if direction != 'icrs->munu':
+                P = P0
             kinds = {'point': (np.arange(len(P)), 0), 'pair': (np.arange(len(pairs)), 1), 'triple': (np.arange(len(triples)), 2)}
             fails = {'point': {}, 'pair': {}, 'triple': {}}
             for sig, kind, idx, msg in res:
                 if kind == 'all':
                     acc.violation(sig, {'layer': 'munu', 'stripe': stripe, 'route': route, 'form': 'array',
-                                        'pts': _case_pts(P, [0])}, msg)
+                                        'pts': _case_pts(P, [0]), 'direction': direction}, msg)
                     continue
                 m = np.zeros(len(kinds[kind][0]), dtype=bool)
                 m[idx] = True
@@ -557,12 +580,15 @@ def run_munu(acc, task):
                     else:
                         pts = _case_pts(P, triples[i])
                     acc.violation(sig, {'layer': 'munu', 'stripe': stripe, 'route': route, 'form': 'array', 'kind': kind,
-                                        'pts': pts}, 'stripe %d (incl %g): %s' % (stripe, incl, msg))
+                                        'pts': pts, 'direction': direction},
+                                  'stripe %d (incl %g): %s' % (stripe, incl, msg))
                 if len(idx) > 3:
                     acc.viol_count[sig] += len(idx) - 3
             for kind, (ar, code) in kinds.items():
                 k = base + np.uint64(code << 28) + ar.astype(np.uint64)
-                _bulk(acc, k, np.full(len(ar), nt), 'munu:%s:%s' % (route, kind), fails[kind])
+                _bulk(acc, k, np.full(len(ar), nt), 'munu:%s:%s:%s' % (route, direction, kind), fails[kind])
+            if direction != 'icrs->munu':
+                continue
             # nu = 0 circle
             cres = circle_check(stripe, route, tl)
             cf = {}
@@ -589,7 +615,7 @@ def run_munu(acc, task):
                 pts = _case_pts(S, [i]) if kind == 'point' else _case_pts(S, [2, 3])
                 acc.violation(sig, {'layer': 'munu', 'stripe': stripe, 'route': 'graph', 'form': 'scalar', 'kind': kind,
                                     'pts': pts}, 'stripe %d (incl %g): %s' % (stripe, incl, msg))
-        _bulk(acc, np.uint64((stripe * 2) << 32) + np.uint64(4 << 28) + np.arange(len(S)).astype(np.uint64),
+        _bulk(acc, np.uint64((stripe * 4) << 32) + np.uint64(4 << 28) + np.arange(len(S)).astype(np.uint64),
               np.full(len(S), nt), 'munu:graph:scalar', sf)
 
 
@@ -652,7 +678,8 @@ def replay(case):
         kind = case.get('kind', 'point')
         pairs = np.array([[0, 1]]) if kind == 'pair' else np.zeros((0, 2), dtype=np.int64)
         triples = np.array([[0, 1, 2]]) if kind == 'triple' else np.zeros((0, 3), dtype=np.int64)
-        res, _v = munu_points_check(case['stripe'], case['route'], case['form'], P, pairs, triples)
+        res, _v = munu_points_check(case['stripe'], case['route'], case['form'], P, pairs, triples,
+                                    case.get('direction', 'icrs->munu'))
         return [(s, m) for s, _k, _i, m in res]
     if layer == 'circle':
         return [(s, m) for s, _k, _i, m in circle_check(case['stripe'], case['route'], case['t'])]
